@@ -61,6 +61,14 @@ def run(path, sources, on_stmt=None):
                 lab = influence(st.value, env)
                 for t in st.targets:
                     _bind(t, lab, env, sources)
+                # x = y makes x an alias of the object y: what is known about y's fields is known about x's fields
+                sv = dotted(st.value) if isinstance(st.value, (ast.Name, ast.Attribute)) else None
+                if sv:
+                    for t in st.targets:
+                        dt = dotted(t) if isinstance(t, (ast.Name, ast.Attribute)) else None
+                        if dt:
+                            for k in [k for k in env if k.startswith(sv + ".")]:
+                                env[dt + k[len(sv):]] = set(env[k])
             elif isinstance(st, ast.AugAssign):
                 d = dotted(st.target)
                 if d:
